@@ -815,6 +815,63 @@ def inline_private_calls(idx: Index, f: FuncInfo, depth: int = 2, keep=()) -> as
                                     if not (isinstance(b, ast.Expr) and isinstance(b.value, ast.Constant)) and not isinstance(b, ast.Return)]
                             out.extend(expand(body, level + 1) or [ast.Pass()])
                             continue
+            # `for T in self._gen(args): BODY` where the helper is a generator whose yields are statements `yield E` and that has no
+            # `return`: the helper's body with every `yield E` replaced by `T = E; BODY` (BODY has no break/continue of this loop)
+            if level < depth and isinstance(st, ast.For) and not st.orelse and isinstance(st.iter, ast.Call):
+                h, is_method = helper_of(f.cls, f.unit.modname, st.iter)
+                if h is not None and h.qualname != f.qualname and h.name.startswith("_") and not h.name.startswith("__") and h.name not in keep:
+                    a = h.node.args
+                    yields = [x for x in walk_local(h.node) if isinstance(x, (ast.Yield, ast.YieldFrom))]
+                    ystmts = [x for x in walk_local(h.node) if isinstance(x, ast.Expr) and isinstance(x.value, ast.Yield) and x.value.value is not None]
+
+                    def own_jumps(stmts):
+                        for b in stmts:
+                            if isinstance(b, (ast.Break, ast.Continue)):
+                                return True
+                            if isinstance(b, (ast.For, ast.While, ast.FunctionDef, ast.ClassDef)):
+                                continue
+                            for fld in ("body", "orelse", "finalbody"):
+                                if own_jumps(getattr(b, fld, None) or []):
+                                    return True
+                            if any(own_jumps(hh.body) for hh in getattr(b, "handlers", []) or []):
+                                return True
+                        return False
+                    if yields and len(yields) == len(ystmts) and not any(isinstance(x, ast.Return) for x in walk_local(h.node)) \
+                            and not (a.vararg or a.kwarg or a.posonlyargs or a.kwonlyargs) and not own_jumps(st.body):
+                        params = [p_.arg for p_ in a.args][1 if is_method else 0:]
+                        env = dict(zip(params, st.iter.args))
+                        ok = len(st.iter.args) <= len(params)
+                        for k in st.iter.keywords:
+                            if k.arg in params:
+                                env[k.arg] = k.value
+                            else:
+                                ok = False
+                        defaults = dict(zip(params[len(params) - len(a.defaults):], a.defaults))
+                        for pnm in params:
+                            if pnm not in env:
+                                if pnm in defaults:
+                                    env[pnm] = defaults[pnm]
+                                else:
+                                    ok = False
+                        if ok:
+                            loop_st = st
+
+                            class SubG(ast.NodeTransformer):
+                                def visit_Name(self, n):
+                                    if n.id in env and isinstance(n.ctx, ast.Load):
+                                        return copy.deepcopy(env[n.id])
+                                    return n
+
+                                def visit_Expr(self, n):
+                                    if isinstance(n.value, ast.Yield):
+                                        val = self.visit(n.value.value)
+                                        bind = ast.copy_location(ast.Assign(targets=[copy.deepcopy(loop_st.target)], value=val), n)
+                                        return [bind] + [copy.deepcopy(b) for b in loop_st.body]
+                                    return self.generic_visit(n)
+                            gb = [y for b in h.node.body if not (isinstance(b, ast.Expr) and isinstance(b.value, ast.Constant))
+                                  for y in (lambda r: r if isinstance(r, list) else [r])(SubG().visit(copy.deepcopy(b)))]
+                            out.extend(expand(gb, level + 1))
+                            continue
             # `x = self._h(args)` / `return self._h(args)` where every return of the helper is in tail position of an
             # if/else tree (no return inside a loop / try / with): `return E` becomes `x = E`, the statements after an
             # `if ...: return` move into its else branch
